@@ -145,7 +145,9 @@ def _z_worker(item):
         else:
             sgy = p + '.sgy'
             if c['route'] == 'segy':
-                inputs.write_segy(sgy, inputs.cube((2, 3, nz), ci), [1, 2], [1, 2, 3], samples, delay=S)
+                # the interval recorded in both file and trace headers, in the trace headers only, or inconsistently (segyio's rule decides)
+                binf = (None, {segyio.BinField.Interval: 0}, None, {segyio.BinField.Interval: 3000})[ci % 4]
+                inputs.write_segy(sgy, inputs.cube((2, 3, nz), ci), [1, 2], [1, 2, 3], samples, delay=S, bin_fields=binf)
             else:
                 inputs.write_segy_traces(sgy, inputs.cube((5, nz), ci), samples, [{} for _ in range(5)])
             with segyio.open(sgy, strict=False) as s:
